@@ -7,7 +7,8 @@
 //verif:include ../C07/cose_env.go
 //verif:zeroglobal crypto/rand.Reader
 //verif:summary github.com/notaryproject/notation-core-go/internal/timestamp.Timestamp -> sumTimestamp
-//verif:iface attr string int64 int bool []byte float64
+//verif:stub unicode/utf8.ValidString -> stubValidStringC
+//verif:iface attr string int64 int uint64 bool []byte float64
 //verif:iface timestamper nil github.com/notaryproject/notation-core-go/signature/cose.envTimestamper
 //verif:iface .Value int64 bool
 package cose
@@ -236,3 +237,28 @@ func (envTimestamper) Timestamp(ctx context.Context, r *tspclient.Request) (*tsp
 // never reached: timestamp.Timestamp is summarised
 var _ = gocose.AlgorithmPS256
 var _ = rsa.PSSSaltLengthAuto
+
+// ---- texts. JSON and CBOR text strings are Unicode: a Go string that is not valid UTF-8 is written by encoding/json
+// with U+FFFD in place of the offending bytes and by the CBOR encoder as it is - which the CBOR decoder then refuses.
+// Whether a text atom is valid UTF-8 is an arbitrary fact about it (memoised); concrete texts of the harness are ASCII.
+type utf8RecC struct {
+	s     string
+	valid bool
+}
+
+var utf8LogC []utf8RecC
+
+func stubValidStringC(s string) bool {
+	for _, r := range utf8LogC {
+		if rt.Same(r.s, s) {
+			return r.valid
+		}
+	}
+	v := true
+	if !rt.IsConcrete(s == "") { // an atom (comparisons with a concrete text are symbolic)
+		v = rt.Bool(rt.Name("text.is.valid.utf8"))
+		rt.Assume(rt.Implies(len(s) == 0, v)) // the empty text is valid
+	}
+	utf8LogC = append(utf8LogC, utf8RecC{s, v})
+	return v
+}
